@@ -1,6 +1,7 @@
 import KeepVerif.DriverLib
 import KeepVerif.Model.C01
 import KeepVerif.Model.C01Drv
+import KeepVerif.Props.C01Agree3
 open KeepVerif
 open KeepVerif.C01
 
@@ -23,6 +24,9 @@ def monitor (op obs : String) : String :=
       if outs.map (·.id) ≠ honest then "FAIL honest-members-missing"
       else if outs.any (fun o => o.ok && o.key.isNone) then "FAIL finished-without-group-key"
       else if (corrupt cfg).eraseDups.length > cfg.t then "ok"   -- outside the property's hypothesis
-      else if holds honest outs then "ok" else "FAIL honest-members-disagree"
+      else if !holds honest outs then "FAIL honest-members-disagree"
+      -- the named premises of `agreement_partial` (Sync10), evaluated on the model's run of this case
+      else if !premisesHold cfg then "FAIL agreement-premises-do-not-hold-on-the-model-run"
+      else "ok"
 
 def main (args : List String) : IO UInt32 := driverMain model monitor args
